@@ -150,30 +150,32 @@ Definition parse_int_dec (bits : N) (s : list byte) : option Z :=
 
 (* normalizeToIntString *)
 Definition max_digits : Z := 20.
-Definition normalize_to_int_string (n : parts) : option (list byte) :=
+(* the part of normalizeToIntString after the "0" shortcut *)
+Definition norm_body (n : parts) : option (list byte) :=
   let intp_size := Z.of_nat (length (p_intp n)) in
   let frac_size := Z.of_nat (length (p_frac n)) in
+  let oexp := match p_exp n with [] => Some 0%Z | _ => parse_int_dec 32 (p_exp n) end in
+  match oexp with
+  | None => None
+  | Some exp =>
+    let sign := if p_neg n then [c_minus] else [] in
+    if (0 <=? exp)%Z then
+      if (exp <? frac_size)%Z then None
+      else if (max_digits <? intp_size + exp)%Z then None
+      else Some (sign ++ p_intp n ++ p_frac n ++ repeat c_0 (Z.to_nat (exp - frac_size)))
+    else
+      if (0 <? frac_size)%Z then None
+      else
+        let index := (intp_size + exp)%Z in
+        if (index <? 0)%Z then None
+        else if forallb (fun b => is b c_0) (skipn (Z.to_nat index) (p_intp n))
+             then Some (sign ++ firstn (Z.to_nat index) (p_intp n))
+             else None
+  end.
+Definition normalize_to_int_string (n : parts) : option (list byte) :=
   match p_intp n, p_frac n with
   | [], [] => Some [c_0]
-  | _, _ =>
-    let oexp := match p_exp n with [] => Some 0%Z | _ => parse_int_dec 32 (p_exp n) end in
-    match oexp with
-    | None => None
-    | Some exp =>
-      let sign := if p_neg n then [c_minus] else [] in
-      if (0 <=? exp)%Z then
-        if (exp <? frac_size)%Z then None
-        else if (max_digits <? intp_size + exp)%Z then None
-        else Some (sign ++ p_intp n ++ p_frac n ++ repeat c_0 (Z.to_nat (exp - frac_size)))
-      else
-        if (0 <? frac_size)%Z then None
-        else
-          let index := (intp_size + exp)%Z in
-          if (index <? 0)%Z then None
-          else if forallb (fun b => is b c_0) (skipn (Z.to_nat index) (p_intp n))
-               then Some (sign ++ firstn (Z.to_nat index) (p_intp n))
-               else None
-    end
+  | _, _ => norm_body n
   end.
 
 (* Token.getIntStr / Token.Int / Token.Uint on the raw bytes of a Number token *)
